@@ -136,6 +136,10 @@ static int on_term_resize(TickitTerm *term, TickitEventFlags flags, void *_info,
     tickit_window_expose(win, &damage);
   }
 
+  /* The cursor's cell may have left the screen, and the terminal has moved its
+   * cursor as it saw fit: have it put where it belongs, or switched off */
+  _request_restore(root);
+
   tickit_window_unref(win);
 
   return 1;
